@@ -8,7 +8,7 @@ Theorem fns_accounted :
 Proof. vm_compute. reflexivity. Qed.
 
 Example fns_nonvacuous :
-  (80 <=? List.length known_items)%nat = true /\
-  (25 <=? List.length (filter (fun q => is_scanned (snd q)) known_items))%nat = true /\
-  (600 <=? List.length (flat_map (fun q => snd (fst q)) known_items))%nat = true.
+  Nat.leb 80 (List.length known_items) = true /\
+  Nat.leb 25 (List.length (filter (fun q => is_scanned (snd q)) known_items)) = true /\
+  Nat.leb 600 (List.length (flat_map (fun q => snd (fst q)) known_items)) = true.
 Proof. vm_compute. repeat split. Qed.
